@@ -260,10 +260,12 @@ theorem inv_assoc (s : Sys) (id : Key) (t : Signer) (c : Cmd)
       · right
         simp only [process] at hp
         split at hp
-        · split at hp
-          · cases hp; rfl
-          · cases hp
         · cases hp
+        · split at hp
+          · split at hp
+            · cases hp; rfl
+            · cases hp
+          · cases hp
     have hst : applyAll s.proxy evs = { s.proxy with signer := some t.info } := by
       rcases hev with rfl | rfl <;> rfl
     rw [hst]
@@ -311,7 +313,7 @@ theorem inv_sign (s : Sys) (id : Key) (m : Signed ReqBody) (ovr : Option Nat) (h
     | ok out =>
       obtain ⟨t', r⟩ := out
       simp only
-      obtain ⟨hv, _, _, _, hnonce, hkeys, hid, hpk', _, _, _⟩ :=
+      obtain ⟨hv, _, _, _, hnonce, hkeys, hid, hpk', _, _, _, _⟩ :=
         processSignerRequest_ok t t' m ovr r hp
       obtain ⟨hsig, _, hbc⟩ := (validFor_iff m t.proxyKey).mp hv
       refine ⟨h.ndReq, h.ndResp, h.reqKnown, h.disj, h.reqsOpen, ?_, ?_, ?_, ?_, ?_, ?_, h.acct⟩
